@@ -73,7 +73,7 @@ theorem runNum_ok_suffix (q : Quirks) (n : NumTok) (s r : List Char) (h : runNum
       split at h
       · simp [overflow] at h; split at h <;> simp at h
       · split at h
-        · simp [overflow] at h; split at h <;> simp at h
+        · simp at h
         · simp at h; rw [← h]; exact List.IsSuffix.trans hsuf hs1
   | intTok =>
     simp only [runNum] at h
@@ -128,33 +128,5 @@ theorem run_ok_suffix (q : Quirks) (env : Nat → G) :
       · next o hne1 hne2 => rw [h] at hne1; exact absurd rfl (hne1 r)
     | num n => simp only [run] at h; exact runNum_ok_suffix q n s r h
     | ref i => simp only [run] at h; exact ih (env i) s r h
-
-/-! ### the range predicate is closed under suffixes -/
-
-theorem tokensInRange_head (q : Quirks) (t : List Char) (h : tokensInRange q t = true) :
-    (allNumToks.all fun n => !(runNum q n t).isPanic) = true := by
-  cases t with
-  | nil => simpa [tokensInRange] using h
-  | cons c cs => simp only [tokensInRange, Bool.and_eq_true] at h; exact h.1
-
-theorem tokensInRange_suffix (q : Quirks) : ∀ (pre t : List Char), tokensInRange q (pre ++ t) = true → tokensInRange q t = true
-  | [], t, h => by simpa using h
-  | c :: pre, t, h => by
-    simp only [List.cons_append, tokensInRange, Bool.and_eq_true] at h
-    exact tokensInRange_suffix q pre t h.2
-
-theorem tokensInRange_of_suffix (q : Quirks) (r t : List Char) (hs : r <:+ t) (h : tokensInRange q t = true) :
-    tokensInRange q r = true := by
-  obtain ⟨pre, rfl⟩ := hs
-  exact tokensInRange_suffix q pre r h
-
-/-- all numeric leaves of a grammar are among `allNumToks` -/
-def G.numsOk : G → Bool
-  | .seq a b => a.numsOk && b.numsOk
-  | .alt a b => a.numsOk && b.numsOk
-  | .star a => a.numsOk
-  | .opt a => a.numsOk
-  | .num n => allNumToks.contains n
-  | _ => true
 
 end BsVerif.CmdNum
